@@ -26,6 +26,9 @@ class InjectedFault(Exception):
     pass
 
 
+MAX_OBJECTS = 8      # objects hashed per history (see World._vhash)
+
+
 # ---------------------------------------------------------------------------------------------- schemas
 # attr: kind 'int' (required?, unique?) | 'ref' (required?, target, reverse, cascade None/True/False) | 'set' (target, reverse, cascade)
 def A_int(required=False, unique=False): return {'kind': 'int', 'required': required, 'unique': unique}
@@ -56,6 +59,15 @@ SCHEMAS = {
         {'attrs': [PK, A_ref(0, 6, required=True)], 'ckeys': []},
         {'attrs': [PK, A_ref(0, 7), A_set(5, 3), A_ref(5, 2)], 'ckeys': []},
     ]},
+    # S3: the many-to-many side that _calc_modified_m2m skips (second in name order) also owns a refusing one-to-many, after the
+    #     many-to-many in attribute order; a second, cascading one-to-many with grandchildren
+    'S3': {'entities': [
+        {'attrs': [PK, A_set(1, 1), A_int(unique=True)], 'ckeys': []},
+        {'attrs': [PK, A_set(0, 1), A_set(3, 1), A_set(2, 1, cascade=False), A_int()], 'ckeys': []},
+        {'attrs': [PK, A_ref(1, 3, required=True)], 'ckeys': []},
+        {'attrs': [PK, A_ref(1, 2, required=True), A_set(4, 1)], 'ckeys': []},
+        {'attrs': [PK, A_ref(3, 2, required=True)], 'ckeys': []},
+    ]},
 }
 
 
@@ -72,12 +84,16 @@ class World(object):
         self.schema = schema
         self.path = path
         self.db = db = orm.Database()
-        counter = itertools.count()
+        self.hash_next = [1000]          # objects of the foreign session hash to 1000.. ; objects of the history to 0, 1, 2, ...
+        hash_next = self.hash_next
 
         def _vhash(obj):
+            # Deterministic set iteration order: CPython iterates a set of small distinct integer hashes (< 8, the minimal table
+            # size) in ascending order, so collections are walked in creation order.  MAX_OBJECTS keeps the hashes below 8.
             h = obj.__dict__.get('_vh_')
             if h is None:
-                h = obj.__dict__['_vh_'] = next(counter)
+                h = obj.__dict__['_vh_'] = hash_next[0]
+                hash_next[0] += 1
             return h
         self.ents = []
         for i, e in enumerate(schema['entities']):
@@ -137,6 +153,7 @@ class World(object):
         if self.foreign is None:
             # objects of an earlier, finished session (one per entity that can be created alone) for "mixed session" arguments
             self.foreign = {}
+        self.hash_next[0] = 0
         self.session = orm.db_session()
         self.session.__enter__()
         self.cache = self.db._get_cache()
